@@ -207,7 +207,7 @@ def get_com_2d(ar: ArrayLike, corner_centered: bool = False) -> ArrayLike:
                 -1,
                 -2,
             ),
-        )[:, None]
+        )[..., None]
     )
     return com
 
